@@ -44,7 +44,8 @@ from .validation import ValidationContext, DecodeContext, EncodeContext, Validat
 from .helpers import parse_xsd_derivation, parse_xpath_default_namespace
 from .xsdbase import XSD_TYPE_DERIVATIONS, XSD_ELEMENT_DERIVATIONS, XsdComponent
 from .particles import ParticleMixin, OccursCalculator
-from .identities import XsdIdentity, XsdKeyref, KeyrefCounter, FieldValueSelector
+from .identities import XsdIdentity, XsdKeyref, IdentityCounter, KeyrefCounter, \
+    FieldValueSelector
 from .simple_types import XsdSimpleType
 from .attributes import XsdAttribute
 from .wildcards import XsdAnyElement
@@ -652,6 +653,7 @@ class XsdElement(XsdComponent, ParticleMixin,
                     outer_counters = {}
                 outer_counters[identity] = context.identities[identity]
                 context.identities[identity] = identity.get_counter(obj)
+                context.identities[identity].outer = outer_counters[identity]
             else:
                 context.identities[identity].reset(obj)
 
@@ -936,14 +938,19 @@ class XsdElement(XsdComponent, ParticleMixin,
             xsd_element._set_type(xsd_type)
 
         # Collect field values for identities that refer to this XSD element.
+        counters: list[IdentityCounter] = []
         for identity in self.selected_by:
-            try:
-                counter = context.identities[identity]
-            except KeyError:
+            # The scopes in progress of the identity constraint: more than
+            # one if the element that declares it occurs inside itself.
+            counter = context.identities.get(identity)
+            while counter is not None:
+                counters.append(counter)
+                counter = counter.outer
+
+        for counter in counters:
+            identity = counter.identity
+            if not counter.enabled:
                 continue
-            else:
-                if not counter.enabled:
-                    continue
 
             if counter.elements is None:
                 # Apply selector on Element ancestor for obtain the selected elements
